@@ -105,3 +105,40 @@ func harnessC10SqliteOffsetsAndIsolation() {
 	vAssert(len(after) == len(before), "memory-stores-isolated-events")
 	vCover("loaded")
 }
+
+//verif:entry property=C10 tier=both bounds="SQLite store (file or :memory:, stream batch size b in [0,N+1]) through the database/sql model incl. its connection-pool limit: a stream from start index k1 and, while it stands at item #nestAt, a Read from start index k2 and a LoadOffset (store calls while the cursor is open); both see exactly the log" cover="streams-done" N_quick=3 N_thorough=4
+func harnessC10SqliteStreamAndRead() {
+	N := vParam("N", 3)
+	path := "/tmp/gosx-c10-e.db"
+	if vBool() {
+		path = ":memory:"
+	}
+	st := mustNew(path, WithStreamBatchSize(vInt(0, N+1)))
+	n := vInt(0, N)
+	recs := sqlFill(st, n)
+	start := func(k int) eventbus.Offset {
+		if k > 0 {
+			return recs[k-1].off
+		}
+		return eventbus.OffsetOldest
+	}
+	k1, k2 := vInt(0, n), vInt(0, n)
+	nestAt := vInt(0, N)
+	i := 0
+	for ev, serr := range st.ReadStream(bg, start(k1)) {
+		vAssert(serr == nil, "stream-ok")
+		vAssert(k1+i < n && sqlSame(ev, recs[k1+i]), "stream-same-sequence")
+		if i == nestAt {
+			evs, _, rerr := st.Read(bg, start(k2), 0)
+			vAssert(rerr == nil && len(evs) == n-k2, "read-count")
+			for j := range evs {
+				vAssert(sqlSame(evs[j], recs[k2+j]), "read-order-and-content")
+			}
+			_, lerr := st.LoadOffset(bg, "nobody")
+			vAssert(lerr == nil, "load-ok")
+		}
+		i++
+	}
+	vAssert(i == n-k1, "stream-same-length")
+	vCover("streams-done")
+}
